@@ -339,9 +339,6 @@ func (l *listener) Listen() error {
 		return err
 	}
 
-	if taddr.Port == 0 {
-		l.anon = true
-	}
 	if tlist, err := net.ListenTCP("tcp", taddr); err != nil {
 		return err
 	} else if l.iswss {
@@ -354,6 +351,10 @@ func (l *listener) Listen() error {
 	l.running = true
 	l.lock.Unlock()
 	l.bound = l.listener.Addr().(*net.TCPAddr)
+	if taddr.Port == 0 {
+		// Only now is there a bound address for Address() to report.
+		l.anon = true
+	}
 
 	l.htsvr = &http.Server{Addr: l.url.Host, Handler: l.mux}
 
